@@ -192,6 +192,288 @@ impl AnyObject {
 pub open spec fn op_is_jumpdest(o: DynOpcode) -> bool { any_is::<super::control::JumpDest>(any_of(object_of(o))) }
 //@extract file=src/opcode/mod.rs path="type ExecuteResult" kind=type
 //@end
+
+// ---- abstract VM: stand-in types ---------------------------------------------------------------------
+/// A-CALLEE (opaque stand-in for `Memory`)
+#[verifier::external_body]
+pub struct Memory { _opaque: u8 }
+impl Memory {
+    // A-CALLEE: Memory::load_slice returns some value and can change this memory only; it is total
+    // (its own arithmetic is the business of another unit, D7)
+    #[verifier::external_body]
+    pub fn load_slice(&mut self, offset: &RuntimeBoxedVal, size: &RuntimeBoxedVal, instruction_pointer: u32) -> RuntimeBoxedVal { unimplemented!() }
+}
+/// A-CALLEE (opaque stand-in for `ValueBuilder`)
+#[verifier::external_body]
+pub struct ValueBuilder { _opaque: u8 }
+impl ValueBuilder {
+    // A-CALLEE: ValueBuilder::symbolic_exec builds some value (size culling: unit value_size); total
+    #[verifier::external_body]
+    pub fn symbolic_exec(&self, instruction_pointer: u32, data: RSVD) -> RuntimeBoxedVal { unimplemented!() }
+}
+/// A-CALLEE (opaque stand-in for `JumpTargets`, the global per-target fork counter)
+#[verifier::external_body]
+pub struct JumpTargets { _opaque: u8 }
+/// whether the fork budget still allows a conditional jump to `target`
+pub uninterp spec fn fork_budget(jt: JumpTargets, target: u32) -> bool;
+impl JumpTargets {
+    // A-CALLEE: JumpTargets::fork_to (src/vm/data.rs) answers Ok(true) and counts the visit while the
+    // per-target budget lasts, Ok(false) afterwards; its errors are InstructionPointerOutOfBounds /
+    // NotJumpSource / NotJumpTarget, none of them a jump-target kind.  (unit limits has the counter.)
+    #[verifier::external_body]
+    pub fn fork_to(&mut self, current_instruction: u32, target_instruction: u32) -> (r: execution::Result<bool>)
+        ensures
+            r is Ok ==> r->Ok_0 == fork_budget(*old(self), target_instruction),
+            r is Err ==> !is_jump_target_kind(r->Err_0.payload),
+    { unimplemented!() }
+}
+/// the four error kinds that describe a bad jump target (src/vm/mod.rs VM::execute, JumpI::execute)
+pub open spec fn is_jump_target_kind(e: Error) -> bool {
+    e is NoConcreteJumpDestination || e is NonExistentJumpTarget || e is InvalidJumpTarget || e is InvalidOffsetForJump
+}
+
+//@extract file=src/vm/mod.rs path="struct Config" kind=type
+//@end
+
+/// A-CALLEE (type stand-in for `VMState`): the fields the code under contract reaches; storage, logged
+/// values, visit counters and the config copy of the real type are out of sight.
+pub struct VMState {
+    pub fork_point: u32,
+    pub stack: Stack,
+    pub memory: Memory,
+    pub recorded_values: Vec<RuntimeBoxedVal>,
+}
+// A-DERIVE: #[derive(Clone)] on VMState is a deep copy
+impl Clone for VMState {
+    #[verifier::external_body]
+    fn clone(&self) -> (r: Self) ensures r == *self { unimplemented!() }
+}
+//@extract file=src/vm/state/mod.rs path="impl VMState" kind=header
+//@end
+//@extract file=src/vm/state/mod.rs path="impl VMState|fn stack_mut"
+//@ret r
+//@spec
+        ensures *r == old(self).stack, final(self).stack == *final(r),
+            final(self).memory == old(self).memory, final(self).recorded_values == old(self).recorded_values, final(self).fork_point == old(self).fork_point,
+//@end
+//@extract file=src/vm/state/mod.rs path="impl VMState|fn memory_mut"
+//@ret r
+//@spec
+        ensures *r == old(self).memory, final(self).memory == *final(r),
+            final(self).stack == old(self).stack, final(self).recorded_values == old(self).recorded_values, final(self).fork_point == old(self).fork_point,
+//@end
+//@extract file=src/vm/state/mod.rs path="impl VMState|fn record_value"
+//@spec
+        ensures final(self).recorded_values@ == old(self).recorded_values@.push(value),
+            final(self).stack == old(self).stack, final(self).memory == old(self).memory, final(self).fork_point == old(self).fork_point,
+//@end
+//@extract file=src/vm/state/mod.rs path="impl VMState|fn fork"
+//@ret r
+//@spec
+        ensures r.stack == self.stack, r.memory == self.memory, r.recorded_values == self.recorded_values,      //@ob C08.ctl.state_fork.same_state
+//@end
+}
+
+/// A-CALLEE (type stand-in for `VMThread`): same fields as the real type
+pub struct VMThread {
+    pub state: VMState,
+    pub thread: ExecutionThread,
+    pub gas_usage: usize,
+}
+// A-DERIVE: #[derive(Clone)] on VMThread is a deep copy
+impl Clone for VMThread {
+    #[verifier::external_body]
+    fn clone(&self) -> (r: Self) ensures r == *self { unimplemented!() }
+}
+//@extract file=src/vm/thread.rs path="impl VMThread" kind=header
+//@end
+//@extract file=src/vm/thread.rs path="impl VMThread|fn state_mut"
+//@ret r
+//@spec
+        ensures *r == old(self).state, final(self).state == *final(r), final(self).thread == old(self).thread, final(self).gas_usage == old(self).gas_usage,
+//@end
+//@extract file=src/vm/thread.rs path="impl VMThread|fn instructions_mut"
+//@ret r
+//@spec
+        ensures *r == old(self).thread, final(self).thread == *final(r), final(self).state == old(self).state, final(self).gas_usage == old(self).gas_usage,
+//@end
+//@extract file=src/vm/thread.rs path="impl VMThread|fn fork"
+//@ret r
+//@spec
+        ensures
+            r.thread.code() == self.thread.code(),
+            // the new thread starts at the target when the target is an offset of the code
+            (target as int) < self.thread.code().len() ==> r.thread.ip() == target,                            //@ob C08.ctl.thread_fork.starts_at_target
+            (target as int) >= self.thread.code().len() ==> r.thread.ip() == self.thread.ip(),
+            r.state.stack == self.state.stack, r.state.memory == self.state.memory, r.state.recorded_values == self.state.recorded_values,      //@ob C08.ctl.thread_fork.same_state
+            r.gas_usage == self.gas_usage,
+//@end
+}
+
+/// A-CALLEE (type stand-in for `VM`): real field names where the code under contract reaches them.
+/// `thread_queue: VecDeque<VMThread>` is split into its front (`current`) and the rest (`waiting`);
+/// `instructions: InstructionStream` is reduced to its length; stored states and the watchdog are out of sight.
+pub struct VM {
+    pub instructions_len: u32,
+    pub jump_targets: JumpTargets,
+    pub current: Option<VMThread>,
+    pub waiting: Vec<VMThread>,
+    pub config: Config,
+    pub current_thread_killed: bool,
+    pub errors: Errors,
+    pub builder: ValueBuilder,
+}
+impl VM {
+    // ---- the spec state of DESIGN.md C08/C17 ----
+    pub open spec fn has_thread(&self) -> bool { self.current is Some }
+    /// instruction pointer of the current thread
+    pub open spec fn ip(&self) -> u32 { self.current->Some_0.thread.ip() }
+    /// the code the current thread runs: instr_at(i) = code()[i], code length = code().len()
+    pub open spec fn code(&self) -> Seq<DynOpcode> { self.current->Some_0.thread.code() }
+    pub open spec fn stack(&self) -> Seq<RuntimeBoxedVal> { self.current->Some_0.state.stack@ }
+    pub open spec fn recorded(&self) -> Seq<RuntimeBoxedVal> { self.current->Some_0.state.recorded_values@ }
+    pub open spec fn killed(&self) -> bool { self.current_thread_killed }
+    pub open spec fn permissive(&self) -> bool { self.config.permissive_errors }
+    /// the error log, oldest first
+    pub open spec fn log(&self) -> Seq<LocatedError> { self.errors.log() }
+    /// threads waiting in the queue behind the current one
+    pub open spec fn queued(&self) -> Seq<VMThread> { self.waiting@ }
+    /// control state other than the current thread's own stack / recorded values / memory
+    pub open spec fn same_control(&self, o: &VM) -> bool {
+        &&& self.has_thread() == o.has_thread()
+        &&& self.killed() == o.killed()
+        &&& self.config == o.config
+        &&& self.log() == o.log()
+        &&& self.queued() == o.queued()
+        &&& self.instructions_len == o.instructions_len
+        &&& self.has_thread() ==> self.ip() == o.ip() && self.code() == o.code()
+    }
+
+    // A-CALLEE: VM::current_thread_mut = `thread_queue.front_mut().ok_or(NoSuchThread.locate(instructions_len()))`
+    #[verifier::external_body]
+    pub fn current_thread_mut(&mut self) -> (r: Result<&mut VMThread>)
+        ensures
+            old(self).has_thread() ==> r is Ok,
+            r is Ok ==> old(self).has_thread() && *r->Ok_0 == old(self).current->Some_0 && final(self).current == Some(*final(r->Ok_0))
+                // InstructionStream refuses bytecode longer than u32::MAX (disassembly::Error::BytecodeTooLarge; VM::new panics on it)
+                && r->Ok_0.thread.code().len() <= u32::MAX
+                && final(self).instructions_len == old(self).instructions_len && final(self).jump_targets == old(self).jump_targets && final(self).waiting == old(self).waiting
+                && final(self).config == old(self).config && final(self).current_thread_killed == old(self).current_thread_killed && final(self).errors == old(self).errors
+                && final(self).builder == old(self).builder,
+            r is Err ==> !old(self).has_thread() && *final(self) == *old(self) && r->Err_0 == (LocatedError { location: old(self).instructions_len, payload: Error::NoSuchThread }),
+    { unimplemented!() }
+    // A-CALLEE: VM::enqueue_thread = `thread_queue.push_back(thread)`
+    pub fn enqueue_thread(&mut self, thread: VMThread)
+        ensures final(self).waiting@ == old(self).waiting@.push(thread),
+            final(self).instructions_len == old(self).instructions_len, final(self).jump_targets == old(self).jump_targets, final(self).current == old(self).current,
+            final(self).config == old(self).config, final(self).current_thread_killed == old(self).current_thread_killed, final(self).errors == old(self).errors,
+            final(self).builder == old(self).builder,
+    { self.waiting.push(thread); }
+    // A-CALLEE: VM::instruction_pointer = `current_thread_mut().map(|thread| thread.instructions_mut().instruction_pointer())`
+    // (the closure is written out as a match; checked against the contract below)
+    pub fn instruction_pointer(&mut self) -> (r: Result<u32>)
+        ensures
+            *final(self) == *old(self),
+            old(self).has_thread() ==> r == Ok::<u32, LocatedError>(old(self).ip()) && old(self).code().len() <= u32::MAX,
+            !old(self).has_thread() ==> r == Err::<u32, LocatedError>(LocatedError { location: old(self).instructions_len, payload: Error::NoSuchThread }),
+    {
+        match self.current_thread_mut() { Ok(thread) => Ok(thread.instructions_mut().instruction_pointer()), Err(e) => Err(e) }
+    }
+    // A-CALLEE: VM::stack_handle = `let ip = self.instruction_pointer()?; current_thread_mut().map(|thread|
+    // thread.state_mut().stack_mut().new_located(ip))`.  `wf`: every Stack of a VMState was made by Stack::new
+    // and changed only through Stack's own methods, which keep it (C07.stack.*.wf); its field is private.
+    #[verifier::external_body]
+    pub fn stack_handle(&mut self) -> (r: Result<LocatedStackHandle<'_>>)
+        ensures
+            old(self).has_thread() ==> r is Ok,
+            r is Ok ==> old(self).has_thread() && r->Ok_0.ip() == old(self).ip() && r->Ok_0.cur() == old(self).stack() && r->Ok_0.wf()
+                && final(self).same_control(old(self)) && final(self).jump_targets == old(self).jump_targets && final(self).builder == old(self).builder
+                && final(self).recorded() == old(self).recorded() && final(self).current->Some_0.state.memory == old(self).current->Some_0.state.memory
+                && final(self).stack() == r->Ok_0.fin(),
+            r is Err ==> !old(self).has_thread() && *final(self) == *old(self) && r->Err_0 == (LocatedError { location: old(self).instructions_len, payload: Error::NoSuchThread }),
+    { unimplemented!() }
+    // A-CALLEE: VM::state = `current_thread_mut().map(VMThread::state_mut)` (written out as a match; checked)
+    pub fn state(&mut self) -> (r: Result<&mut VMState>)
+        ensures
+            old(self).has_thread() ==> r is Ok,
+            r is Ok ==> old(self).has_thread() && *r->Ok_0 == old(self).current->Some_0.state && final(self).has_thread() && final(self).current->Some_0.state == *final(r->Ok_0)
+                && final(self).same_control(old(self)) && final(self).jump_targets == old(self).jump_targets && final(self).builder == old(self).builder,
+            r is Err ==> !old(self).has_thread() && *final(self) == *old(self) && r->Err_0 == (LocatedError { location: old(self).instructions_len, payload: Error::NoSuchThread }),
+    {
+        match self.current_thread_mut() { Ok(thread) => Ok(thread.state_mut()), Err(e) => Err(e) }
+    }
+    // A-CALLEE: VM::execution_thread_mut = `current_thread_mut().map(VMThread::instructions_mut)` (written out as a match; checked)
+    pub fn execution_thread_mut(&mut self) -> (r: Result<&mut ExecutionThread>)
+        ensures
+            old(self).has_thread() ==> r is Ok,
+            r is Ok ==> old(self).has_thread() && *r->Ok_0 == old(self).current->Some_0.thread && final(self).has_thread() && final(self).current->Some_0.thread == *final(r->Ok_0)
+                && r->Ok_0.code().len() <= u32::MAX
+                && final(self).current->Some_0.state == old(self).current->Some_0.state && final(self).current->Some_0.gas_usage == old(self).current->Some_0.gas_usage
+                && final(self).instructions_len == old(self).instructions_len && final(self).jump_targets == old(self).jump_targets && final(self).waiting == old(self).waiting
+                && final(self).config == old(self).config && final(self).current_thread_killed == old(self).current_thread_killed && final(self).errors == old(self).errors
+                && final(self).builder == old(self).builder,
+            r is Err ==> !old(self).has_thread() && *final(self) == *old(self) && r->Err_0 == (LocatedError { location: old(self).instructions_len, payload: Error::NoSuchThread }),
+    {
+        match self.current_thread_mut() { Ok(thread) => Ok(thread.instructions_mut()), Err(e) => Err(e) }
+    }
+}
+//@extract file=src/vm/mod.rs path="impl VM" kind=header
+//@end
+//@extract file=src/vm/mod.rs path="impl VM|fn jump_targets_mut"
+//@ret r
+//@spec
+        ensures *r == old(self).jump_targets, final(self).jump_targets == *final(r),
+            final(self).same_control(old(self)), final(self).current == old(self).current, final(self).builder == old(self).builder,
+//@end
+//@extract file=src/vm/mod.rs path="impl VM|fn fork_current_thread"
+//@ret r
+//@spec
+        ensures
+            old(self).has_thread() ==> r is Ok,
+            // one more thread waits, with the current thread's state, at the target (when that is an offset of the code)
+            r is Ok ==> final(self).queued().len() == old(self).queued().len() + 1 && final(self).queued().drop_last() == old(self).queued()
+                && forks_to(final(self).queued().last(), old(self).current->Some_0, jump_target),           //@ob C08.ctl.fork_current_thread.queues_one_at_target
+            r is Err ==> final(self).queued() == old(self).queued() && !is_jump_target_kind(r->Err_0.payload),
+            // nothing else moves: the current thread, the kill flag, the mode, the log
+            final(self).current == old(self).current, final(self).current_thread_killed == old(self).current_thread_killed, final(self).config == old(self).config,
+            final(self).errors == old(self).errors, final(self).jump_targets == old(self).jump_targets, final(self).instructions_len == old(self).instructions_len,
+            final(self).builder == old(self).builder,                                                         //@ob C08.ctl.fork_current_thread.current_thread_untouched
+//@end
+//@extract file=src/vm/mod.rs path="impl VM|fn kill_current_thread"
+//@spec
+        ensures
+            final(self).killed(),                                                                              //@ob C08.ctl.kill_current_thread.sets_flag
+            final(self).current == old(self).current, final(self).waiting == old(self).waiting, final(self).config == old(self).config, final(self).errors == old(self).errors,
+            final(self).jump_targets == old(self).jump_targets, final(self).instructions_len == old(self).instructions_len, final(self).builder == old(self).builder,
+//@end
+//@extract file=src/vm/mod.rs path="impl VM|fn store_error"
+//@spec
+        ensures
+            final(self).log() == old(self).log().push(error),                                                  //@ob C17.ctl.store_error.appends
+            final(self).current == old(self).current, final(self).waiting == old(self).waiting, final(self).config == old(self).config,
+            final(self).current_thread_killed == old(self).current_thread_killed,
+            final(self).jump_targets == old(self).jump_targets, final(self).instructions_len == old(self).instructions_len, final(self).builder == old(self).builder,
+//@end
+//@extract file=src/vm/mod.rs path="impl VM|fn build"
+//@ret r
+//@spec
+        ensures *r == self.builder,
+//@end
+//@extract file=src/vm/mod.rs path="impl VM|fn config"
+//@ret r
+//@spec
+        ensures *r == self.config,
+//@end
+}
+
+/// `t` is a fork of `cur` to `target`: same code, same state, positioned at the target
+pub open spec fn forks_to(t: VMThread, cur: VMThread, target: u32) -> bool {
+    &&& t.thread.code() == cur.thread.code()
+    &&& (target as int) < cur.thread.code().len() ==> t.thread.ip() == target
+    &&& t.state.stack == cur.state.stack
+    &&& t.state.memory == cur.state.memory
+    &&& t.state.recorded_values == cur.state.recorded_values
+}
 } // verus!
 }
 
@@ -351,6 +633,7 @@ pub open spec fn forked_at(t: VMThread, before: &VM, target: u32) -> bool {
             r is Ok ==> final(vm).killed(),                                                     //@ob C08.ctl.return.ok_kills_thread
             r is Ok ==> final(vm).ip() == old(vm).ip() && final(vm).code() == old(vm).code() && final(vm).queued() == old(vm).queued() && final(vm).log() == old(vm).log() && final(vm).config == old(vm).config,      //@ob C08.ctl.return.nothing_else_moves
             old(vm).has_thread() && old(vm).stack().len() >= 2 ==> r is Ok,                          //@ob C08.ctl.return.ok_with_operands
+            r is Ok ==> old(vm).has_thread() && old(vm).stack().len() >= 2 && final(vm).stack() == old(vm).stack().drop_last().drop_last(),      //@ob C07.ctl.return.pops_operands
             r is Err ==> !is_jump_target_kind(r->Err_0.payload) && (old(vm).has_thread() ==> r->Err_0.location == old(vm).ip()),      //@ob C17.ctl.return.error_kind_and_location
 //@end
 }
@@ -366,6 +649,7 @@ pub open spec fn forked_at(t: VMThread, before: &VM, target: u32) -> bool {
             r is Ok ==> final(vm).killed(),                                                     //@ob C08.ctl.revert.ok_kills_thread
             r is Ok ==> final(vm).ip() == old(vm).ip() && final(vm).code() == old(vm).code() && final(vm).queued() == old(vm).queued() && final(vm).log() == old(vm).log() && final(vm).config == old(vm).config,      //@ob C08.ctl.revert.nothing_else_moves
             old(vm).has_thread() && old(vm).stack().len() >= 2 ==> r is Ok,                          //@ob C08.ctl.revert.ok_with_operands
+            r is Ok ==> old(vm).has_thread() && old(vm).stack().len() >= 2 && final(vm).stack() == old(vm).stack().drop_last().drop_last(),      //@ob C07.ctl.revert.pops_operands
             r is Err ==> !is_jump_target_kind(r->Err_0.payload) && (old(vm).has_thread() ==> r->Err_0.location == old(vm).ip()),      //@ob C17.ctl.revert.error_kind_and_location
 //@end
 }
@@ -565,6 +849,7 @@ broadcast use super::vm::lemma_handle_resolved;
             r is Ok ==> final(vm).killed(),                                                     //@ob C08.ctl.selfdestruct.ok_kills_thread
             r is Ok ==> final(vm).ip() == old(vm).ip() && final(vm).code() == old(vm).code() && final(vm).queued() == old(vm).queued() && final(vm).log() == old(vm).log() && final(vm).config == old(vm).config,      //@ob C08.ctl.selfdestruct.nothing_else_moves
             old(vm).has_thread() && old(vm).stack().len() >= 1 ==> r is Ok,                          //@ob C08.ctl.selfdestruct.ok_with_operands
+            r is Ok ==> old(vm).has_thread() && old(vm).stack().len() >= 1 && final(vm).stack() == old(vm).stack().drop_last(),      //@ob C07.ctl.selfdestruct.pops_operands
             r is Err ==> !is_jump_target_kind(r->Err_0.payload) && (old(vm).has_thread() ==> r->Err_0.location == old(vm).ip()),      //@ob C17.ctl.selfdestruct.error_kind_and_location
 //@end
 }
